@@ -261,6 +261,22 @@ def load_known():
         return {"findings": [], "fixed": []}
 
 
+class WorkerHang(BaseException):
+    pass
+
+
+def alarm(seconds):
+    """per-job watchdog for in-process workers (0 cancels): a run that does not terminate raises WorkerHang"""
+    import signal
+
+    def on_alarm(sig, frm):
+        raise WorkerHang("no result within %d s" % seconds)
+
+    if seconds:
+        signal.signal(signal.SIGALRM, on_alarm)
+    signal.alarm(seconds)
+
+
 class Check:
     def __init__(self, pid, tier, level):
         self.pid, self.tier, self.level = pid, tier, level
